@@ -20,11 +20,11 @@ TREE = {"R/a.txt": 1, "R/d/b c.txt": 2, "R/d/e/c.txt": 3, "R/N/a.txt": 4, "R/N/s
 PATTERNS = ["*.tmp", "!keep.tmp"]  # order matters: the second pattern re-includes what the first one excludes
 MUTATIONS = {"quick": ["none", "alter-top", "alter-nested", "alter-kept", "delete", "add", "rename-top", "rename-nested"],
              "thorough": ["none", "alter-top", "alter-nested", "delete", "add", "rename-top", "rename-nested", "restore", "alter-kept"],
-             "three": ["none", "alter-top", "delete", "rename-top", "rename-nested"]}
+             "three": ["none", "alter-top", "rename-top", "rename-nested"]}
 COMMANDS = {"quick": ["create", "create-n", "create-dr", "create-i", "create-fmt2", "create-sf-top", "create-sf-nested", "verify", "diff", "flatten"],
             "thorough": ["create", "create-n", "create-dr", "create-i", "create-fmt2", "create-sf-top", "create-sf-nested", "verify", "diff", "flatten",
                          "info", "create-dr-fmt2"],
-            "three": ["create", "create-dr", "create-fmt2", "create-sf-top", "create-i", "create-dr-fmt2", "verify", "flatten"]}
+            "three": ["create", "create-dr", "create-fmt2", "create-sf-top", "create-dr-fmt2", "verify", "flatten"]}
 QUICK_FAMILIES = ["C02", "C03", "C04", "C08", "C12", "C17"]
 THREE_FAMILIES = ["C04", "C17"]
 FAMILIES = ["C02", "C03", "C04", "C06", "C07", "C08", "C11", "C12", "C14", "C17", "C18"]
